@@ -134,7 +134,7 @@ def check_layout(sx, meta, specs, sym, node_block, ranks, start, stage, removed_
            stubs=["apply_links.tqdm -> plain iteration"],
            assumes=["residue ids >= 1 (vermouth treats residue id 0 as missing)"],
            outside=["blocks with more atoms / residue graphs larger than the bound", ".rtp input", "numbers as rendered text (C11)"],
-           bounds={"quick": dict(nmax=3, kA=[1, 3], kB=[1, 2]), "thorough": dict(nmax=4, kA=[1, 2, 3], kB=[1, 2])},
+           bounds={"quick": dict(nmax=3, kA=[1, 4], kB=[1, 2]), "thorough": dict(nmax=4, kA=[1, 3, 4], kB=[1, 2])},
            budget={"quick": 280, "thorough": 1500})
 def layout(sx, B):
     """Real read_ff / read_polyply, MetaMolecule, MapToMolecule and ApplyLinks on a generated force field (block sizes, input syntax,
